@@ -35,6 +35,8 @@ def main(argv):
 
     tier, seed, idx, n, out = argv[1], int(argv[2]), int(argv[3]), int(argv[4]), argv[5]
     budget = getattr(mod, "BUDGET_S", {"quick": 45, "thorough": 600})[tier]
+    if os.environ.get("VERIF_BUDGET_S"):  # exploration aid: cap the per-shard workload budget (the registered commands never set it)
+        budget = min(budget, float(os.environ["VERIF_BUDGET_S"]))
     # separate, generous wall-clock watchdog: dumps stacks; the parent turns a kill into "inconclusive"
     faulthandler.enable()
     ctx = core.Ctx(prop, tier, seed, idx, n, budget)
